@@ -28,7 +28,7 @@ CLAUSE_PROP = {
     "RhsTerms": "C01", "Inv:RhsIsMassAction": "C01", "OneStatementPerEquation": "C01", "WrapperOnThermalRowOnly": "C01",
     "NoStrayTerms": "C01", "NoEnabledAction": "C01",
     "MalformedFex": "C01",
-    "JacTerms": "C02", "Inv:JacIsDerivative": "C02", "OmittedIsZero": "C02", "WrapperOnThermalCellsOnly": "C02", "MalformedJac": "C02",
+    "JacTerms": "C02", "Inv:JacIsDerivative": "C02", "JacobianReadsTheSameAbundancesAsTheRhs": "C02", "OmittedIsZero": "C02", "WrapperOnThermalCellsOnly": "C02", "MalformedJac": "C02",
     "TermsOnlyInRange": "C03", "CellsInRange": "C03", "NoCellAssignedTwice": "C03", "MacroNSPECIES": "C03", "MacroNEQUATIONS": "C03",
     "MacroNREACTIONS": "C03", "MacroThermal": "C03", "SubscriptsInBounds": "C03", "CsrComplete": "C03", "CsrWellFormed": "C03",
     "CsrDataWithinNNZ": "C03", "CsrCellsAreTheCells": "C03", "PatternMarksStoredEntries": "C03", "BackendsAgree": "C03",
@@ -49,10 +49,14 @@ POOL = {
     "oH2": ({"H": 2}, 0), "pH2": ({"H": 2}, 0), "oH2D+": ({"H": 2, "D": 1}, 1),
     "#CO": ({"C": 1, "O": 1}, 0), "#H2O": ({"H": 2, "O": 1}, 0), "#H": ({"H": 1}, 0), "#CH3OH": ({"C": 1, "H": 4, "O": 1}, 0),
     "N": ({"N": 1}, 0), "N2": ({"N": 2}, 0), "N2H+": ({"N": 2, "H": 1}, 1),
+    # identifiers that differ only in letter case: Si -> SiI, S+ -> SII; SiO -> SiOI / SO... (distinct species, distinct slots)
+    "S": ({"S": 1}, 0), "S+": ({"S": 1}, 1), "Si": ({"Si": 1}, 0), "Si+": ({"Si": 1}, 1), "SiO": ({"Si": 1, "O": 1}, 0), "SO": ({"S": 1, "O": 1}, 0),
+    "SO+": ({"S": 1, "O": 1}, 1), "SiH": ({"Si": 1, "H": 1}, 0), "HS+": ({"S": 1, "H": 1}, 1),
+    "O*": ({"O": 1}, 0),      # an excited atom: an atomic form of O whose name is not the element's
 }
 ELECTRONS = {"e-", "E", "E-"}
 PSEUDO = ["CR", "CRP", "PHOTON", "CRPHOT"]
-ELEMS = ["H", "D", "He", "C", "N", "O"]
+ELEMS = ["H", "D", "He", "C", "N", "O", "S", "Si"]
 
 
 def pseudo_of(desc) -> list[str]:
@@ -273,6 +277,8 @@ def make_trace(tid: int, desc: dict, tag: str, o: dict, extra_species: list[str]
         "max_y": max(ms.get("y", -1), ms.get("y_cur", -1)), "max_ydot": ms.get("ydot", -1), "max_k": ms.get("k", -1),
         "max_kh": ms.get("kh", -1), "max_kc": ms.get("kc", -1), "max_k_assigned": max(o.get("k_assigned") or [-1]),
         "has_csr": tag in ("sparse", "cusparse"), "has_pattern": False,
+        # through which array the abundances are read (the batched GPU kernels read the cell's own block `y_cur`, not the base `y`)
+        "yarr_fex": sorted(k for k in fex["maxsub"] if k in ("y", "y_cur")), "yarr_jac": sorted(k for k in jac["maxsub"] if k in ("y", "y_cur")),
     }
     if fin["has_csr"]:
         rp, cv = jac["rowptr"], jac["colval"]
@@ -483,6 +489,15 @@ def main(ctx: Ctx) -> int:
     descs = cases_from_tlc(ctx, 60 if ctx.quick else 700)
     cov["tlc_chosen_networks"] = len(descs)
     descs += random_cases(rng, 50 if ctx.quick else 600)
+    # targeted: distinct species whose identifiers differ only in letter case (Si -> SiI, S+ -> SII; SiO / SO; SiH / HS+)
+    descs += [
+        {"reactions": [(["Si", "O"], ["SiO"]), (["S+", "e-"], ["S"]), (["SiO", "S+"], ["SO+", "Si"]), (["Si+", "S"], ["Si", "S+"])], "required": [],
+         "origin": "random"},
+        {"reactions": [(["S+", "SiH"], ["HS+", "Si"]), (["Si+", "e-"], ["Si"]), (["S", "Si+"], ["S+", "Si"])], "required": ["SO"], "origin": "random"},
+        # an element represented by a species that is not spelled like it (the less connected O* precedes O in the species order)
+        {"reactions": [(["O*", "H2"], ["OH", "H"]), (["O", "H2"], ["OH", "H"]), (["OH", "H"], ["O", "H2"]), (["O", "H"], ["OH"]), (["CO", "He+"], ["C+", "O", "He"])],
+         "required": [], "origin": "random"},
+    ]
     # bundled networks (thorough): reactions and species as the real readers decoded them (decoding itself is C07's subject)
     prebuilt = {}
     if not ctx.quick:
